@@ -50,6 +50,9 @@ ZOO_FIELDS = {   # name -> list of (field name, exported, tag, how to get node f
     "A": [("a", False, "a", 0), ("B", True, "b", 1)],
     "B": [("X", True, "", 0), ("y", False, "", 1), ("Z", True, "", 2)],
     "G": [("A", True, "k", 0), ("B", True, "k", 1), ("C", True, "", 2)],
+    # two different types named main.local
+    "L1": [("x", False, "a", 0), ("Y", True, "b", 1)],
+    "L2": [("P", True, "", 0), ("Q", True, "", 1), ("R", True, "", 2), ("Y", True, "b", 3), ("x", False, "a", 4)],
 }
 
 def struct_fields(n):
@@ -223,7 +226,7 @@ class ValGen:
         r = self.r
         if n is None:
             n = r.choice([0, 1, 2, 3, 5, 9])
-        chars = "abéĀ �\U0001F600'\"\\\n\r\x00\x1a\x7f \t"
+        chars = "abéĀ �\U0001F600'\"\\\n\r\x00\x1a\x7f \t%{$"       # % { $: text that looks like a format / template directive
         return "".join(r.choice(chars) for _ in range(n)).encode("utf-8")
 
     def some_int(self):
@@ -298,8 +301,10 @@ class ValGen:
         if k == 3: return self.float_node()
         if k in (4, 5): return self.str_node()
         if k == 6: return ("bytes", "a" if self.canon else r.choice(["a", "a", "A", "na", "nb"]), self.payload())
-        if k == 7: return ("class", r.choice([b"decimal", b"foo.bar", b"m\nx"]) if r.below(20) == 0 else r.choice([b"decimal", b"foo.bar"]),
-                           r.choice([b"Decimal", b"C"]))
+        if k == 7:
+            odd = [b"100%", b"%d", b"a%sb", b"%%", b"%!v", b"m x", "\u00e9".encode(), b"a'b", b'a"b', b"a\\b", b"{0}", b"$x", b"a.b.c", b"", b"\t"]
+            return ("class", r.choice([b"decimal", b"foo.bar", b"m\nx"]) if r.below(20) == 0 else r.choice([b"decimal", b"foo.bar"] + (odd if r.below(3) == 0 else [])),
+                    r.choice([b"Decimal", b"C"] + (odd if r.below(3) == 0 else [])))
         if k in (8, 9):
             return ("tuple", [self.node(depth + 1) for _ in range(r.choice([0, 1, 2, 3, 4]))])
         if k in (10, 11):
@@ -333,7 +338,7 @@ class ValGen:
             return ("call", b"decimal", b"Decimal", [self.node(depth + 1) for _ in range(r.choice([0, 1, 2]))])
         if k == 15:
             pid = self.str_node() if r.below(2) else self.node(depth + 1)
-            if r.below(3) == 0: pid = ("str", "s", bytes(r.choice(b"abc 019") for _ in range(r.below(6))))
+            if r.below(3) == 0: pid = ("str", "s", bytes(r.choice(b"abc 019%{$'\\") for _ in range(r.below(6))))
             return ("ref", pid)
         if self.canon:
             return self.int_node()
@@ -349,11 +354,12 @@ class ValGen:
                 fs.append((nm, tag, val))
             return ("struct", fs)
         if k == 17:
-            z = r.choice(["A", "B", "C", "E", "G"])
+            z = r.choice(["A", "B", "C", "E", "G", "L1", "L2"])
             iv = lambda: ("int", "i", r.below(100) - 50)
             sv = lambda: ("str", "s", self.text(3))
             args = {"A": lambda: [sv(), iv()], "B": lambda: [iv(), iv(), sv()], "C": lambda: [iv(), iv(), sv(), iv()],
-                    "E": lambda: [iv(), iv()], "G": lambda: [iv(), iv(), iv()]}[z]()
+                    "E": lambda: [iv(), iv()], "G": lambda: [iv(), iv(), iv()],
+                    "L1": lambda: [iv(), sv()], "L2": lambda: [iv(), iv(), iv(), sv(), iv()]}[z]()
             return ("zoo", z, args)
         if k == 18:
             inner = self.node(depth + 1)
@@ -443,7 +449,9 @@ def gate_matrix():
         out.append(("map", "m", pairs)); out.append(("map", "d", pairs))
         out.append(("map", "tm", [(("str", "s", b"k%d" % j), ("int", "i16", j)) for j in range(n)]))
         out.append(("call", b"decimal", b"Decimal", [("str", "s", b"3.14")] * n))
-    out += [("class", b"decimal", b"Decimal"), ("class", b"a\nb", b"C"), ("class", b"m", b"x\ny"), ("class", b"", b""),
+    out += [("class", b"100%", b"%d"), ("class", b"%s", b"a%vb"), ("call", b"%d", b"%s", [("int", "i", 1)]), ("ref", ("str", "s", b"id%d%s")),
+            ("ref", ("str", "s", b"100%")), ("struct", [(b"A", b"t%d", ("int", "i", 1))]),
+            ("class", b"decimal", b"Decimal"), ("class", b"a\nb", b"C"), ("class", b"m", b"x\ny"), ("class", b"", b""),
             ("class", "é".encode(), "Ā".encode()), ("call", b"m\n", b"C", []),
             ("ref", ("str", "s", b"abc")), ("ref", ("str", "s", b"a\nb")), ("ref", ("str", "z", b"abc")), ("ref", ("str", "ns", b"abc")),
             ("ref", ("int", "i", 5)), ("ref", ("tuple", [("str", "s", b"t"), ("int", "i", 1)])), ("ref", ("nil",)), ("ref", ("none",)),
@@ -455,6 +463,8 @@ def gate_matrix():
             ("struct", [(b"A", b"t", one), (b"B", b"t", ("int", "i", 2))]),
             ("struct", [(b"A", b"n,omitempty", ("int", "i", 0)), (b"B", b"", one)]), ("struct", [(b"A", b"-", one), (b"B", b"-,", ("nil",))]),
             ("struct", [(b"A", b",omitempty", ("str", "s", b"")), (b"B", b"n,omitempty", ("bool", False)), (b"C", b"c,omitempty", one)]),
+            ("zoo", "L1", [one, ("str", "s", b"y")]), ("zoo", "L2", [one, ("int", "i", 2), ("int", "i", 3), ("str", "s", b"y"), ("int", "i", 5)]),
+            ("list", "l", [("zoo", "L2", [one, one, one, ("str", "s", b"q"), one]), ("zoo", "L1", [one, ("str", "s", b"p")])]),
             ("zoo", "A", [("str", "s", b"x"), one]), ("zoo", "B", [one, one, ("str", "s", b"z")]),
             ("zoo", "C", [one, one, ("str", "s", b"z"), one]), ("zoo", "E", [one, one]), ("zoo", "G", [one, ("int", "i", 2), ("int", "i", 3)]),
             ("zoo", "F", [("list", "l", [one]), one, ("map", "m", [(one, one)]), one, ("str", "s", b"e"), ("tuple", [one]), ("str", "s", b"gh")]),
